@@ -1,7 +1,7 @@
 /- C05 — fibers follow the coroutine and signal protocol: property theorems over Fiber/Model.lean + Fiber/Boot.lean.
    Every statement quantifies over all machine states / stacks (nesting depths) / scripts; constants (signal and
    status numbers, mask letters, refused-status sets) come from Gen/Fiber.lean, regenerated from the C on every run. -/
-import JanetModel.Fiber.Cleanup
+import JanetModel.Fiber.Macros
 namespace JanetModel.Props.C05
 open JanetModel.Fiber JanetModel.Gen.Fiber
 
@@ -293,10 +293,8 @@ theorem with_is_defer (n l : Nat) (ctor : Prim) (dtor body k : Tm) :
 /-- `try`: the body fiber has mask :ie — only an error (or the return) reaches the parent, whose next instruction
     tests `(= (fiber/status f) :error)`; every other signal, including user0-4 which finish the body, passes the
     parent by (it takes the same status and its catch clause never runs).
-    PARTIAL: proved per arrival, for all states.  NOT proved: the whole-execution composition for mask :ie (the
-    argument of `defer_runs_exactly_once` is written for mask :ti, where "the body exited" and "the parent receives the
-    signal" coincide; with :ie the user0-4 exits finish body AND parent without a catch, a different case split). -/
-theorem try_catch_runs_exactly_once_partial (s : State) (p f : FId) (rest : List FId) (fp ff : Fiber) (cont : Cont) (sig : Nat) (v : Val)
+    This is the per-arrival lemma; the whole-execution statement is `try_catch_runs_exactly_once` below. -/
+theorem try_arrival (s : State) (p f : FId) (rest : List FId) (fp ff : Fiber) (cont : Cont) (sig : Nat) (v : Val)
     (hp : s.fiber? p = some fp) (hf : s.fiber? f = some ff) (hw : fp.ctl = .wait cont) (hnn : cont.isNext = false)
     (hmask : ff.mask = maskOfFlags flagsIE) (halive : fp.passThrough = false) (hcc : inCcall fp = false) (hs : sig < 14) :
     ((sig = sigOk ∨ sig = sigError) →
@@ -379,10 +377,52 @@ example :
 /-- the conclusion of the cleanup theorems: after `n` steps from `s`, still blocked with the body not exited, or a first
     step `i ≤ n` at which the body is finished (for ever) and the code after the macro's resume is what `p` runs -/
 def ExactlyOnce (p f : FId) (cont : Cont) (s : State) (n : Nat) : Prop :=
-  Blk p f cont (run n s) (run n s).stack ∨
-  ∃ i, i ≤ n ∧ (∀ j, j < i → Blk p f cont (run j s) (run j s).stack) ∧
-    ((run i s).halt ≠ none ∨
+  Blk (maskOfFlags flagsTI) p f cont (run n s) (run n s).stack ∨
+  ∃ i, i ≤ n ∧ (∀ j, j < i → Blk (maskOfFlags flagsTI) p f cont (run j s) (run j s).stack) ∧
+    (Stuck (run i s) ∨
      (Exited p f cont (run i s) ∧ ∀ m, ∃ ff, (run m (run i s)).fiber? f = some ff ∧ isFinished ff.status = true))
+
+/-- the same for a macro whose body fiber has an arbitrary mask `m` (try / protect :ie, prompt :i0, with-dyns :p): a third
+    outcome exists — the body exited with a signal its mask does not hand to the parent (`Passed`: for `try` user0-4); then
+    body AND parent are finished for ever with that status, the parent is never on the activation stack again, and the
+    code after the resume (the catch clause) has not run and never will.
+    `Stuck` = the model stopped on hang / unmodelled / ill-formed; control returning to the C caller (`done`) is not an escape. -/
+def ExactlyOnceM (m : Nat) (p f : FId) (cont : Cont) (s : State) (n : Nat) : Prop :=
+  Blk m p f cont (run n s) (run n s).stack ∨
+  ∃ i, i ≤ n ∧ (∀ j, j < i → Blk m p f cont (run j s) (run j s).stack) ∧
+    (Stuck (run i s) ∨
+     (Exited p f cont (run i s) ∧ ∀ k, ∃ ff, (run k (run i s)).fiber? f = some ff ∧ isFinished ff.status = true) ∨
+     (Passed m p f cont (run i s) ∧ ∀ k,
+        (∃ ff, (run k (run i s)).fiber? f = some ff ∧ isFinished ff.status = true) ∧
+        (∃ fp, (run k (run i s)).fiber? p = some fp ∧ isFinished fp.status = true) ∧
+        ((run k (run i s)).halt = none → p ∉ (run k (run i s)).stack)))
+
+theorem finished_forever' (s : State) (hinv : Inv s) (g : FId) (fg : Fiber) (hg : s.fiber? g = some fg)
+    (hfin : isFinished fg.status = true) (k : Nat) : ∃ fg', (run k s).fiber? g = some fg' ∧ isFinished fg'.status = true := by
+  obtain ⟨fg', h1, h2⟩ := finished_is_forever s hinv k g fg hg hfin
+  exact ⟨fg', h1, h2 ▸ hfin⟩
+
+/-- ★ whole-execution theorem for every fiber-based macro whose mask only accepts exit signals (`AccFin m`) -/
+theorem macro_runs_exactly_once (m : Nat) (hm : AccFin m) (p f : FId) (cont : Cont) (s : State) (hinv : Inv s) (hne : p ≠ f)
+    (hb : Blk m p f cont s s.stack) (hpriv : ∀ i, Priv p f (run i s)) (n : Nat) : ExactlyOnceM m p f cont s n := by
+  unfold ExactlyOnceM
+  rcases blocked_until_exit hm n s hinv hne hb hpriv with h | ⟨i, hi, hbefore, hat⟩
+  · exact Or.inl h
+  · refine Or.inr ⟨i, hi, hbefore, ?_⟩
+    have hinv' := (run_res i s hinv).2
+    rcases hat with h | h | h
+    · exact Or.inl h
+    · refine Or.inr (Or.inl ⟨h, fun k => ?_⟩)
+      obtain ⟨⟨ff, hff, hfin⟩, _⟩ := h
+      exact finished_forever' _ hinv' f ff hff hfin k
+    · refine Or.inr (Or.inr ⟨h, fun k => ?_⟩)
+      obtain ⟨ff, fp, hff, hfp, hfin, _, _, hst, _, _⟩ := h
+      have hpf := finished_forever' _ hinv' p fp hfp (hst ▸ hfin) k
+      refine ⟨finished_forever' _ hinv' f ff hff hfin k, hpf, fun hh hmem => ?_⟩
+      obtain ⟨fp', h1, h2⟩ := hpf
+      obtain ⟨x, hx1, hx2⟩ := ((run_res k _ hinv').2.2 hh).2 p hmem
+      rw [h1] at hx1; cases hx1
+      rw [hx2] at h2; exact absurd h2 (by decide)
 
 /-- ★ `defer` / `edefer` / `with` — exactly once, on exit, for EVERY body script, EVERY exit path (return, error, user
     signals, cancel from anywhere, propagate, refusals, C re-entry coercion), EVERY interleaving with other fibers and
@@ -398,17 +438,17 @@ def ExactlyOnce (p f : FId) (cont : Cont) (s : State) (n : Nat) : Prop :=
     hypothesis cannot be dropped.  Needs the patched janet_continue_no_check (`chainAliveMarked`): on the unpatched tree
     the body can re-enter its own suspended ancestor and the statement is false (corpus/C05/ancestor-reentry.json). -/
 theorem defer_runs_exactly_once (p f : FId) (cont : Cont) (s : State) (hinv : Inv s) (hne : p ≠ f)
-    (hb : Blk p f cont s s.stack) (hpriv : ∀ i, Priv p f (run i s)) (n : Nat) : ExactlyOnce p f cont s n := by
+    (hb : Blk (maskOfFlags flagsTI) p f cont s s.stack) (hpriv : ∀ i, Priv p f (run i s)) (n : Nat) : ExactlyOnce p f cont s n := by
   unfold ExactlyOnce
-  rcases blocked_until_exit n s hinv hne hb hpriv with h | ⟨i, hi, hbefore, hat⟩
+  rcases macro_runs_exactly_once _ accFin_TI p f cont s hinv hne hb hpriv n with h | ⟨i, hi, hbefore, hat⟩
   · exact Or.inl h
   · refine Or.inr ⟨i, hi, hbefore, ?_⟩
-    rcases hat with h | h
+    rcases hat with h | h | ⟨h, _⟩
     · exact Or.inl h
-    · refine Or.inr ⟨h, fun m => ?_⟩
-      obtain ⟨⟨ff, hff, hfin⟩, _⟩ := h
-      obtain ⟨ff', h1, h2⟩ := finished_is_forever (run i s) (run_res i s hinv).2 m f ff hff hfin
-      exact ⟨ff', h1, h2 ▸ hfin⟩
+    · exact Or.inr h
+    · -- mask :ti hands every finishing signal to the parent: `Passed` cannot occur
+      obtain ⟨ff, _, _, _, hfin, hlt, hrej, _⟩ := h
+      rw [rejected_unfinished ff.status hlt hrej] at hfin; cases hfin
 
 /-- what `p` executes after the exit: for `defer` the cleanup form itself … -/
 theorem defer_next_is_cleanup (n : Nat) (form : Tm) :
@@ -432,13 +472,13 @@ theorem defer_shape (n l : Nat) (form body k : Tm) :
 
 /-- ★ `edefer`: same statement with `edeferCont` — the code that runs at the exit is the status test guarding the form -/
 theorem edefer_runs_exactly_once (p f : FId) (n : Nat) (form : Tm) (s : State) (hinv : Inv s) (hne : p ≠ f)
-    (hb : Blk p f (edeferCont n form) s s.stack) (hpriv : ∀ i, Priv p f (run i s)) (m : Nat) :
+    (hb : Blk (maskOfFlags flagsTI) p f (edeferCont n form) s s.stack) (hpriv : ∀ i, Priv p f (run i s)) (m : Nat) :
     ExactlyOnce p f (edeferCont n form) s m :=
   defer_runs_exactly_once p f (edeferCont n form) s hinv hne hb hpriv m
 
 /-- ★ `with`: `(def x ctor)` followed by `defer` one slot deeper (`with_is_defer`), destructor call as the form -/
 theorem with_runs_exactly_once (p f : FId) (n : Nat) (dtor : Tm) (s : State) (hinv : Inv s) (hne : p ≠ f)
-    (hb : Blk p f (deferCont (n + 1) (.prim 0 (.pure (.var n)) dtor)) s s.stack) (hpriv : ∀ i, Priv p f (run i s)) (m : Nat) :
+    (hb : Blk (maskOfFlags flagsTI) p f (deferCont (n + 1) (.prim 0 (.pure (.var n)) dtor)) s s.stack) (hpriv : ∀ i, Priv p f (run i s)) (m : Nat) :
     ExactlyOnce p f (deferCont (n + 1) (.prim 0 (.pure (.var n)) dtor)) s m :=
   defer_runs_exactly_once p f (deferCont (n + 1) (.prim 0 (.pure (.var n)) dtor)) s hinv hne hb hpriv m
 
@@ -469,6 +509,136 @@ theorem priv_is_needed :
      | some fp, some ff => isFinished ff.status && (match fp.ctl with | .wait _ => true | _ => false) && decide (fp.child = some 3)
                            && decide ((s.trace.filter (fun e => e.l == 6)).length = 0)
      | _, _ => false) = true := by
+  decide
+
+/-! ## try / protect / prompt / with-dyns: whole executions -/
+
+/-- ★ `try` — the catch clause runs exactly once iff the body exits with an error, on every exit path.  `p` is blocked in
+    the macro's `(resume f)`, `f` (mask :ie) has not exited.  At every later time: still so; or a first step at which
+    (a) the body's return / error (incl. the error `cancel` injects) reached `p`, which now runs the status test
+        `try_next_is_status_test` — by `try_catch_iff_error`, two steps later it runs the catch clause iff `f` is :error and
+        returns `r` otherwise — and `f` is finished for ever, so this happens once; or
+    (b) the body exited with user0-4: the signal passed `p` by, body and parent are finished for ever with that status, `p`
+        never runs again: the catch clause is not run, as documented (`try` only catches errors).
+    Same `Priv` hypothesis as `defer_runs_exactly_once`. -/
+theorem try_catch_runs_exactly_once (p f : FId) (n : Nat) (catch_ : Tm) (s : State) (hinv : Inv s) (hne : p ≠ f)
+    (hb : Blk (maskOfFlags flagsIE) p f (tryCont n catch_) s s.stack) (hpriv : ∀ i, Priv p f (run i s)) (k : Nat) :
+    ExactlyOnceM (maskOfFlags flagsIE) p f (tryCont n catch_) s k :=
+  macro_runs_exactly_once _ accFin_IE p f _ s hinv hne hb hpriv k
+
+theorem try_next_is_status_test (n : Nat) (catch_ : Tm) :
+    contK (tryCont n catch_) = .prim 0 (.status (.var n))
+      (.ite (.var (n + 2)) (kwA "error") (.prim 0 (.pure (.var (n + 1))) catch_) (.ret (.var (n + 1)))) := rfl
+
+/-- ★ … and the decision taken after the exit: catch clause iff the body fiber's status is :error -/
+theorem try_catch_iff_error {s : State} {p f : FId} {rest : List FId} {fp ff : Fiber} {n : Nat} {catch_ : Tm}
+    (hh : s.halt = none) (hstk : s.stack = p :: rest) (hp : s.fiber? p = some fp) (hctl : fp.ctl = .run (contK (tryCont n catch_)))
+    (hlen : fp.env.length = n + 2) (hn : fp.env[n]? = some (.fib f)) (hf : s.fiber? f = some ff) (hlt : ff.status < stNew) :
+    ∃ fp', (run 2 s).fiber? p = some fp' ∧ fp'.env = fp.env ++ [Val.kw (statusName ff.status)] ∧
+      fp'.ctl = .run (if ff.status = stError then (.prim 0 (.pure (.var (n + 1))) catch_) else (.ret (.var (n + 1)))) :=
+  try_decides hh hstk hp hctl hlen hn hf hlt
+
+/-- which exits of a `try` body reach the parent, which pass it by (regenerated mask letters) -/
+theorem try_mask_facts :
+    (∀ sig, sig < stNew → ((sig = sigOk ∨ testBit (maskOfFlags flagsIE) sig = true) ↔ (sig = sigOk ∨ sig = sigError))) ∧
+    (∀ sig, sig < stNew → ((isFinished sig = true ∧ ¬ (sig = sigOk ∨ testBit (maskOfFlags flagsIE) sig = true)) ↔
+        sig ∈ [sigUser0, sigUser1, sigUser2, sigUser3, sigUser4])) := by
+  constructor <;> decide
+
+/-- ★ `protect` (mask :ie): same protocol; after the exit the parent builds `[ok? r]` from the status test -/
+theorem protect_runs_exactly_once (p f : FId) (n : Nat) (s : State) (hinv : Inv s) (hne : p ≠ f)
+    (hb : Blk (maskOfFlags flagsIE) p f (protectCont n) s s.stack) (hpriv : ∀ i, Priv p f (run i s)) (k : Nat) :
+    ExactlyOnceM (maskOfFlags flagsIE) p f (protectCont n) s k :=
+  macro_runs_exactly_once _ accFin_IE p f _ s hinv hne hb hpriv k
+
+/-- ★ `prompt` (mask :i0): the parent regains control exactly once, at the body's return or `(return tag v)` (= signal user0,
+    from any depth below: `signal_delivered_to_nearest_accepting`); an error or user1-4 exit passes the prompt by and
+    finishes it — so a `return` can never be answered twice and the code after the prompt's resume never runs early -/
+theorem prompt_runs_exactly_once (p f : FId) (n : Nat) (tag : String) (s : State) (hinv : Inv s) (hne : p ≠ f)
+    (hb : Blk (maskOfFlags flagsI0) p f (promptCont n tag) s s.stack) (hpriv : ∀ i, Priv p f (run i s)) (k : Nat) :
+    ExactlyOnceM (maskOfFlags flagsI0) p f (promptCont n tag) s k :=
+  macro_runs_exactly_once _ accFin_I0 p f _ s hinv hne hb hpriv k
+
+theorem prompt_mask_facts :
+    (∀ sig, sig < stNew → ((sig = sigOk ∨ testBit (maskOfFlags flagsI0) sig = true) ↔ (sig = sigOk ∨ sig = sigUser0))) ∧
+    userBase + 0 = sigUser0 := by
+  constructor <;> decide
+
+/-- ★ `with-dyns` (mask :p = no signal accepted): the parent continues only when the body RETURNS; every other exit
+    (error, cancel, user0-4) passes through and finishes the parent too; yields and user5-9 leave it blocked -/
+theorem with_dyns_runs_exactly_once (p f : FId) (n : Nat) (s : State) (hinv : Inv s) (hne : p ≠ f)
+    (hb : Blk (maskOfFlags flagsP) p f (withDynsCont n) s s.stack) (hpriv : ∀ i, Priv p f (run i s)) (k : Nat) :
+    ExactlyOnceM (maskOfFlags flagsP) p f (withDynsCont n) s k :=
+  macro_runs_exactly_once _ accFin_P p f _ s hinv hne hb hpriv k
+
+/-- `generate` / `coro` (mask :yi) are NOT of this kind: a yield is handed to the resumer without finishing the body, so
+    the hypothesis `AccFin` fails — and must fail: a generator is resumed many times.  What holds for them is the value
+    protocol (`values_pass_unchanged_in_order`, `deliver_binds_value`) and `finished_never_resumes`. -/
+theorem generate_mask_not_accFin : ¬ AccFin (maskOfFlags flagsYI) := by
+  intro h
+  have := h sigYield (by decide) (Or.inr (by decide))
+  revert this; decide
+
+/-! ## finally-style propagate -/
+
+/-- ★ `(propagate x g)` re-raises: the running fiber leaves run_vm with signal = the status of `g` — for a finished `g`
+    that IS the signal with which it exited (`janet_fiber_set_status(fiber, sig)`) — with the payload `x` unchanged, and
+    with `g` linked as its child, so the original fiber's stack stays attached (stack traces walk `fiber->child`). -/
+theorem propagate_reraises_original {s : State} {p f : FId} {rest : List FId} {fp ff : Fiber} {n l : Nat} {k : Tm} {a : Atom}
+    (hh : s.halt = none) (hstk : s.stack = p :: rest) (hp : s.fiber? p = some fp)
+    (hctl : fp.ctl = .run (.prim l (.propagate a (.var n)) k)) (hn : fp.env[n]? = some (.fib f)) (hf : s.fiber? f = some ff)
+    (hst : ff.status ≤ propagateMaxStatus) (hnd : ff.status ≠ stDead) :
+    step s = raise s p { fp with ctl := .wait (.bindK l k false), child := some f } rest ff.status (evalAtom s fp.env a) :=
+  step_propagate hh hstk hp hctl hn hf hst hnd
+
+/-- … `raise` then hands exactly `(sig, v)` to the callers when no C frame of the fiber is live -/
+theorem raise_is_unwind (s : State) (p : FId) (fp : Fiber) (rest : List FId) (sig : Nat) (v : Val) (hsig : sig ≠ sigOk)
+    (hcc : inCcall fp = false) :
+    raise s p fp rest sig v = unwind (s.setFiber p { fp with status := sig, last := v }) rest p sig v := by
+  unfold raise
+  simp [hsig, hcc]
+
+/-- ★ the tail of `defer` (after the cleanup form ran): `(if (= (fiber/status f) :dead) r (propagate r f))`.
+    With `r` the value bound at the body's exit (`defer_arrival`: slot n+1) and `f` the finished body fiber:
+    body returned → the block's value is `r`; body exited abnormally with signal `sg` → three steps later `p` re-raises
+    EXACTLY `(sg, r)`, child link = `f`.  So the signal a `defer` / `with` lets out after its cleanup is the original one. -/
+theorem defer_propagate_reraises_original {s : State} {p f : FId} {rest : List FId} {fp ff : Fiber} {n : Nat} {r : Val}
+    (hh : s.halt = none) (hstk : s.stack = p :: rest) (hp : s.fiber? p = some fp) (hctl : fp.ctl = .run (deferTail n))
+    (hlen : fp.env.length = n + 3) (hn : fp.env[n]? = some (.fib f)) (hr : fp.env[n + 1]? = some r)
+    (hf : s.fiber? f = some ff) (hne : p ≠ f) (hlt : ff.status < stNew) :
+    (ff.status = stDead → ∃ fp', (run 2 s).fiber? p = some fp' ∧ fp'.ctl = .run (.ret (.var (n + 1))) ∧ fp'.env[n + 1]? = some r) ∧
+    (ff.status ≠ stDead → ∃ s2 fp2, run 3 s = raise s2 p fp2 rest ff.status r ∧ fp2.child = some f ∧ s2.fiber? f = some ff ∧
+        fp2.kont = fp.kont ∧ fp2.mask = fp.mask) :=
+  defer_tail hh hstk hp hctl hlen hn hr hf hne hlt
+
+theorem defer_tail_shape (n : Nat) (form : Tm) : contK (deferCont n form) = .block 0 form (deferTail n) := rfl
+
+/-- non-vacuity, by running the model: a `try` whose body errors runs its catch clause (label 6) once; one whose body
+    signals user0 does not, and both body and parent end with status user0; a `defer` inside a fiber with mask :a whose body
+    signals user2 with payload 11 runs its cleanup (label 6) once and the enclosing resume receives exactly 11 while the
+    defer's fiber has status user2 (the re-raised original signal) -/
+example :
+    let body : Tm := .prim 3 (.error (.lit (.int 11))) (.ret (.lit (.int 13)))
+    let catch_ : Tm := .prim 6 (.pure (.var 3)) (.ret (.var 4))
+    let t : Tm := tryTm 0 7 body catch_ (.ret (.var 0))
+    let s := run 200 (init t [97])
+    ((s.trace.filter (fun e => e.l == 6)).map (·.v), s.halt.isSome) = ([.int 11], true) := by
+  decide
+
+example :
+    let body : Tm := .prim 3 (.signal 0 (.lit (.int 11))) (.ret (.lit (.int 13)))
+    let catch_ : Tm := .prim 6 (.pure (.var 3)) (.ret (.var 4))
+    let t : Tm := .new 1 (tryTm 0 7 body catch_ (.ret (.var 0))) [97] (.prim 8 (.resume (.var 0) nilA) (.ret (.var 1)))
+    let s := run 200 (init t [97])
+    ((s.trace.filter (fun e => e.l == 6)).length, (s.trace.filter (fun e => e.l == 8)).map (·.v), s.snapshot) = (0, [.int 11], [stAlive, stDead, stUser0, stUser0]) := by
+  decide
+
+example :
+    let body : Tm := .prim 3 (.signal 2 (.lit (.int 11))) (.ret (.lit (.int 13)))
+    let form : Tm := .prim 6 (.pure (.lit (.int 20))) (.ret (.lit (.int 21)))
+    let t : Tm := .new 1 (deferTm 0 7 form body (.ret (.var 0))) [97] (.prim 8 (.resume (.var 0) nilA) (.ret (.var 1)))
+    let s := run 200 (init t [97])
+    ((s.trace.filter (fun e => e.l == 6)).length, (s.trace.filter (fun e => e.l == 8)).map (·.v), s.snapshot) = (1, [.int 11], [stAlive, stDead, stUser2, stUser2]) := by
   decide
 
 /-! ## dynamic bindings -/
